@@ -501,10 +501,11 @@ def _graph_finder(x_matrix, z_matrix, get_ops_data=False):
     h_positions = _position_finder(x_mat)
 
     x_mat, z_mat = sla.hadamard_transform(x_mat, z_mat, h_positions)
-    assert (np.linalg.det(x_mat)).astype(
-        int
-    ) % 2 != 0, "Stabilizer generators are not independent."
-    x_inv = (np.linalg.det(x_mat.T) * np.linalg.inv(x_mat.T) % 2).astype(int)
+    # the determinant and the adjugate are integers computed in floating point: round before reducing modulo 2
+    assert (
+        np.rint(np.linalg.det(x_mat)).astype(int) % 2 != 0
+    ), "Stabilizer generators are not independent."
+    x_inv = (np.rint(np.linalg.det(x_mat.T) * np.linalg.inv(x_mat.T)) % 2).astype(int)
     final_z = (z_mat.T @ x_inv) % 2
 
     # get position of non-zero diagonal elements in the final Z matrix to find qubits to apply clifford operations on
